@@ -4,7 +4,6 @@ package simsemaphore
 
 import (
 	"context"
-	"unsafe"
 
 	real "golang.org/x/sync/semaphore"
 
@@ -14,6 +13,7 @@ import (
 // Weighted mirrors semaphore.Weighted.
 type Weighted struct {
 	size int64
+	id   uint64
 	real *real.Weighted
 }
 
@@ -28,7 +28,7 @@ func (s *Weighted) Acquire(ctx context.Context, n int64) error {
 	if err := ctx.Err(); err != nil {
 		return err
 	}
-	kern.Call(kern.Req{Op: kern.OpSemAcq, Obj: uintptr(unsafe.Pointer(s)), A: n, B: s.size})
+	kern.Call(kern.Req{Op: kern.OpSemAcq, Obj: kern.ObjID(&s.id), A: n, B: s.size})
 	if kern.RaceLane && !kern.Aborting() {
 		return s.real.Acquire(ctx, n)
 	}
@@ -40,7 +40,7 @@ func (s *Weighted) TryAcquire(n int64) bool {
 	if !kern.Active() {
 		return s.real.TryAcquire(n)
 	}
-	r := kern.Call(kern.Req{Op: kern.OpSemTry, Obj: uintptr(unsafe.Pointer(s)), A: n, B: s.size})
+	r := kern.Call(kern.Req{Op: kern.OpSemTry, Obj: kern.ObjID(&s.id), A: n, B: s.size})
 	if r.A == 1 {
 			if kern.RaceLane && !kern.Aborting() {
 			s.real.TryAcquire(n)
@@ -59,7 +59,7 @@ func (s *Weighted) Release(n int64) {
 	if kern.RaceLane && !kern.Aborting() {
 		s.real.Release(n)
 	}
-	if r := kern.Call(kern.Req{Op: kern.OpSemRel, Obj: uintptr(unsafe.Pointer(s)), A: n, B: s.size}); r.Status == kern.StPanicSemRelease {
+	if r := kern.Call(kern.Req{Op: kern.OpSemRel, Obj: kern.ObjID(&s.id), A: n, B: s.size}); r.Status == kern.StPanicSemRelease {
 		panic("semaphore: released more than held")
 	}
 }
